@@ -29,6 +29,7 @@ import (
 	"verif/lib/progen"
 )
 
+var pidRe = regexp.MustCompile(` \(pid [0-9]+\)`)
 var uniqTextRe = regexp.MustCompile(`u[0-9a-f]{10}\b`)
 var scratchRe = regexp.MustCompile(`/dev/shm/ps[bx]f?-[0-9A-Za-z-]+`)
 
@@ -595,6 +596,9 @@ type BCrashCase struct {
 	At     int    `json:"at"`
 	Job    string `json:"job,omitempty"`
 	Effect string `json:"effect,omitempty"`
+	// Cores: --localcores (0 = 4).  With 1, jobs that could run side by side
+	// wait in mrp's local queue while one runs.
+	Cores int `json:"localcores,omitempty"`
 }
 
 type bBaseline struct {
@@ -630,9 +634,9 @@ func vdrModeOf(sh DfCase) string {
 	return ""
 }
 
-func bBaselineOf(sh DfCase, p *progen.Program) *bBaseline {
+func bBaselineOf(sh DfCase, p *progen.Program, cores int) *bBaseline {
 	b := &bBaseline{jobFx: map[string]int{}, fileProg: sh.Ff != nil}
-	r := RunB(p, BOptions{Install: "fsmrp", EffectLog: true, VdrMode: vdrModeOf(sh)})
+	r := RunB(p, BOptions{Install: "fsmrp", EffectLog: true, VdrMode: vdrModeOf(sh), Cores: cores})
 	defer r.Cleanup()
 	if r.Err != "" || r.Exit != 0 {
 		return nil
@@ -644,7 +648,7 @@ func bBaselineOf(sh DfCase, p *progen.Program) *bBaseline {
 		b.jobKeys = append(b.jobKeys, o.Key)
 	}
 	sort.Strings(b.jobKeys)
-	rj := RunB(p, BOptions{Install: "fsjob", EffectLog: true, VdrMode: vdrModeOf(sh)})
+	rj := RunB(p, BOptions{Install: "fsjob", EffectLog: true, VdrMode: vdrModeOf(sh), Cores: cores})
 	defer rj.Cleanup()
 	for k, fx := range rj.JobFx {
 		b.jobFx[k] = len(fx)
@@ -658,7 +662,7 @@ func bBaselineOf(sh DfCase, p *progen.Program) *bBaseline {
 }
 
 func evalBCrash(c BCrashCase, p *progen.Program, base *bBaseline) (viol []string, class, effect string) {
-	o1 := BOptions{KeepDir: true, VdrMode: vdrModeOf(c.Shape), Timeout: 60 * time.Second}
+	o1 := BOptions{KeepDir: true, VdrMode: vdrModeOf(c.Shape), Timeout: 60 * time.Second, Cores: c.Cores}
 	switch c.Kind {
 	case "kill":
 		o1.Install, o1.KillAt, o1.KillSig = "fsmrp", c.At, "KILL"
@@ -685,7 +689,7 @@ func evalBCrash(c BCrashCase, p *progen.Program, base *bBaseline) (viol []string
 			effect = strings.ReplaceAll(fx[len(fx)-1], r1.Dir, "")
 			for _, l := range fx {
 				if strings.HasPrefix(l, "KILL") {
-					effect = "monitor of " + c.Job + ": " + strings.ReplaceAll(l, r1.Dir, "")
+					effect = "monitor of " + c.Job + ": " + pidRe.ReplaceAllString(strings.ReplaceAll(l, r1.Dir, ""), "")
 				}
 			}
 		}
@@ -719,7 +723,7 @@ func evalBCrash(c BCrashCase, p *progen.Program, base *bBaseline) (viol []string
 			recorded[o.Key] = true
 		}
 	}
-	r2 := RunB(p, BOptions{Dir: r1.Dir, RemoveLock: true, VdrMode: vdrModeOf(c.Shape), Timeout: 60 * time.Second})
+	r2 := RunB(p, BOptions{Dir: r1.Dir, RemoveLock: true, VdrMode: vdrModeOf(c.Shape), Timeout: 60 * time.Second, Cores: c.Cores})
 	if r2.TimedOut {
 		return append(viol, "the restarted mrp did not end within 60 s"), "restart-timeout", effect
 	}
@@ -789,7 +793,7 @@ func TierBCrash(r *ev.Run) {
 		if p == nil {
 			continue
 		}
-		base := bBaselineOf(sh, p)
+		base := bBaselineOf(sh, p, 0)
 		if base == nil || base.effects == 0 {
 			r.Inconclusive("real binaries: no uninterrupted baseline for " + sh.Name())
 			continue
@@ -802,6 +806,24 @@ func TierBCrash(r *ev.Run) {
 				items = append(items, item{BCrashCase{Tier: "B", Shape: sh, Kind: "int", At: n}, p, base})
 			}
 		}
+		// one core only: forks that could run side by side wait in mrp's
+		// in-memory local queue while one of them runs
+		if sh.Family == "dataflow" && sh.Params.Map == "top" {
+			if b1 := bBaselineOf(sh, p, 1); b1 != nil && b1.effects > 0 {
+				for n := 1; n <= b1.effects+2; n++ {
+					items = append(items, item{BCrashCase{Tier: "B", Shape: sh, Kind: "kill", At: n, Cores: 1}, p, b1})
+					if r.Thorough() {
+						items = append(items, item{BCrashCase{Tier: "B", Shape: sh, Kind: "term", At: n, Cores: 1}, p, b1})
+					}
+				}
+				// ... and mrp dies while a job runs and its sibling is queued
+				for _, k := range b1.jobKeys {
+					for m := 1; m <= b1.jobFx[k]+1; m++ {
+						items = append(items, item{BCrashCase{Tier: "B", Shape: sh, Kind: "jobkill", At: m, Job: k, Cores: 1}, p, b1})
+					}
+				}
+			}
+		}
 		for _, k := range base.jobKeys {
 			r.Add("tierb_monitor_effects", int64(base.jobFx[k]))
 			for m := 1; m <= base.jobFx[k]+1; m++ {
@@ -809,6 +831,9 @@ func TierBCrash(r *ev.Run) {
 			}
 		}
 	}
+	// job-side interruptions first (few, and they reach the instants in which
+	// mrp itself does nothing)
+	sort.SliceStable(items, func(i, j int) bool { return (items[i].c.Kind == "jobkill") && (items[j].c.Kind != "jobkill") })
 	for wi, it := range items {
 		if !r.Mine(wi) {
 			continue
@@ -818,7 +843,7 @@ func TierBCrash(r *ev.Run) {
 			break
 		}
 		viol, class, effect := evalBCrash(it.c, it.p, it.base)
-		key := fmt.Sprintf("B|%s|%s|%d|%s", it.c.Shape.Name(), it.c.Kind, it.c.At, it.c.Job)
+		key := fmt.Sprintf("B|%s|%s|%d|%s|cores=%d", it.c.Shape.Name(), it.c.Kind, it.c.At, it.c.Job, it.c.Cores)
 		if class == "not-reached" || class == "not-started" {
 			r.Eval("")
 			r.Outcome("tierb-" + class)
@@ -848,7 +873,7 @@ func TierBCrash(r *ev.Run) {
 			if !strings.HasSuffix(sig, "during-creation") {
 				sig += ":real"
 			}
-			r.Report(ev.Finding{Sig: sig, What: fmt.Sprintf("real mrp/mrjob, %s, %s at %d %s (%s): %s", c.Shape.Name(), c.Kind, c.At, c.Job, effect, v), Case: c})
+			r.Report(ev.Finding{Sig: sig, What: fmt.Sprintf("real mrp/mrjob (localcores=%d), %s, %s at %d %s (%s): %s", c.Cores, c.Shape.Name(), c.Kind, c.At, c.Job, effect, v), Case: c})
 		}
 	}
 }
